@@ -132,3 +132,8 @@ func init() {
 	AddControl(Control{ID: "c13-errval-typed-arg", Prop: "C13", Rule: "C13.errval", File: "internal/gojqx/makefn_gen.go",
 		Old: "V: a[1]}\n			}\n\n			return fn(env, cv, a0, a1)", New: "V: a1}\n			}\n\n			return fn(env, cv, a0, a1)", ExpectKey: ""})
 }
+
+func init() {
+	AddControl(Control{ID: "c06-wrapguard-text-bits", Prop: "C06", Rule: "C06.wrapguard", File: "pkg/decode/read.go",
+		Old: "	if int64(nBytes) > bytesLeft {", New: "	if int64(nBytes)*8 > d.BitsLeft() {", ExpectKey: "(*pkg/decode.D).tryText|guard#1"})
+}
